@@ -782,6 +782,23 @@ def run_c20(ck, ctx):
                 toml = (f'chip_count_ob = {cnt}\n' if cnt is not None else '') + (f'chip_orders_ob = {json.dumps(orders)}\n' if orders is not None else '')
                 jobs.append((si, 'chips', (cnt, str(orders)), toml, exp, data, ['check', 'all', 'its-stave']))
 
+    # chip ORDER alone configured (no chip count): a lane whose chip list is a strict prefix of a configured order, a configured order
+    # followed by one more chip, a permutation, or exactly a configured order — [E75]/[E9005] iff the list is not one of the orders
+    ORD = [[0, 1, 2, 3, 4, 5, 6], [8, 9, 10, 11, 12, 13, 14]]
+    for kind in ('ML', 'OL'):
+        ids = (G.ML_IDS[:8] if kind == 'ML' else G.OL_IDS[:14])
+        for vname, chips_of_lane0 in (('exact', [0, 1, 2, 3, 4, 5, 6]), ('exact_upper', [8, 9, 10, 11, 12, 13, 14]), ('prefix', [0, 1, 2, 3, 4, 5]),
+                                      ('one_chip', [0]), ('extended', [0, 1, 2, 3, 4, 5, 6, 7]), ('permuted', [0, 2, 1, 3, 4, 5, 6]), ('suffix', [1, 2, 3, 4, 5, 6])):
+            spec = []
+            for li, i in enumerate(ids):
+                chips = chips_of_lane0 if li == 0 else [0, 1, 2, 3, 4, 5, 6]
+                spec.append((i, b''.join(G.alp_chip(R, c, 9, 3) for c in chips)))
+            data = G.encode(build_frame_stream(R, kind, spec))
+            toml = f'chip_orders_ob = {json.dumps(ORD)}\n'
+            exp = set() if chips_of_lane0 in ORD else {'E75'}
+            ck.count('c20_order_only_' + vname)
+            jobs.append((kind, 'chips', ('order_only', vname), toml, exp, data, ['check', 'all', 'its-stave']))
+
     def job(j):
         si, delta, keys, toml, exp, data, args = j
         p = os.path.join(wd, f'c_{abs(hash((si, delta, keys, toml)))}.toml')
